@@ -153,5 +153,7 @@ def run(ctx):
     from ..rules_common import check_effect_tables
     check_effect_tables(ctx, "C11")
     check_presence_tests(ctx, "C11.PRESENCE", classes=ARG_SCOPE.get("C11", []))
+    from ..rules_common import check_param_rebinding
+    check_param_rebinding(ctx, "C11.PARAMS", classes=ARG_SCOPE.get("C11", []))
 
 
